@@ -36,14 +36,16 @@ extern "C" int h_c06() {
     }
   } else if (mode == 2) {          // point column
     std::vector<Frame> v;
-    for (int f = 0; f < n; ++f) { Frame fr; Points pts; Point p; p.name("newp"); p.x(__vp_sym_f32("col")); p.y(__vp_sym_f32("col")); p.z(__vp_sym_f32("col")); p.residual(__vp_sym_f32("col")); pts.point(p); fr.add(pts); v.push_back(fr); }
+    const int ncols = __vp_cfg("ncols");     // number of new columns handed over in this one call
+    for (int f = 0; f < n; ++f) { Frame fr; Points pts; for (int k = 0; k < ncols; ++k) { Point p; p.name(k ? "newq" : "newp"); p.x(__vp_sym_f32("col")); p.y(__vp_sym_f32("col")); p.z(__vp_sym_f32("col")); p.residual(__vp_sym_f32("col")); pts.point(p); } fr.add(pts); v.push_back(fr); }
     if (__vp_cfg("surplus")) { Point s; s.name("stray"); s.x(__vp_sym_f32("col")); v[n - 1].points_nonConst().point(s); }   // the last frame of the argument carries one point more than the column asked for
     __vp_tag("given"); for (int f = 0; f < n; ++f) dump_frame(v[f], true);
     __vp_tag("call");
     try { c.point(v); __vp_obs_u64("refused", 0); } catch (std::exception&) { __vp_obs_u64("refused", 1); }
   } else if (mode == 3) {          // channel column
     std::vector<Frame> v;
-    for (int f = 0; f < n; ++f) { Frame fr; Analogs ana; for (int s = 0; s < S; ++s) { SubFrame sf; Channel ch; ch.name("newa"); ch.data(__vp_sym_f32("col")); sf.channel(ch); ana.subframe(sf); } fr.add(ana); v.push_back(fr); }
+    const int ncols = __vp_cfg("ncols");
+    for (int f = 0; f < n; ++f) { Frame fr; Analogs ana; for (int s = 0; s < S; ++s) { SubFrame sf; for (int k = 0; k < ncols; ++k) { Channel ch; ch.name(k ? "newb" : "newa"); ch.data(__vp_sym_f32("col")); sf.channel(ch); } ana.subframe(sf); } fr.add(ana); v.push_back(fr); }
     if (__vp_cfg("surplus")) { Channel s; s.name("stray"); s.data(__vp_sym_f32("col")); v[n - 1].analogs_nonConst().subframe_nonConst(0).channel(s); }
     __vp_tag("given"); for (int f = 0; f < n; ++f) dump_frame(v[f], true);
     __vp_tag("call");
